@@ -270,3 +270,20 @@ Section M.
   Definition lookup (g : list T) (idx : list Z) : list T := map (py_nth g) idx.
 
 End M.
+
+(* ---------- what the harness evaluates (vm_compute on FNum) ---------- *)
+Section Report.
+  Context {N : Num}.
+  Notation T := (T N).
+
+  (* cell coordinates as returned to the caller + the raw indices + per segment (cells, chain) *)
+  Definition part_report (glat glon galt gtime : list T) (p : @part_result N) :=
+    let '(la, lo, al, ti, st, geom) := p in
+    (lookup glat la, lookup glon lo, option_map (lookup galt) al, option_map (lookup gtime) ti, st,
+     (la, lo, al, ti), geom).
+
+  Definition run_geometry (clamp fixdl : bool) (glat glon galt gtime : list T) (pts : list point)
+             (alts times : option (list T)) (states : list (list T)) :=
+    let '(status, i, parts) := geometry clamp fixdl glat glon galt gtime pts alts times states in
+    (status, i, map (part_report glat glon galt gtime) parts).
+End Report.
